@@ -100,7 +100,86 @@ pub fn scenario(old: &str, new: &str, via: &str) -> Scenario {
     }
 }
 
+/// A valid file whose pools cannot be built at the moment of the reload (the new server is down and
+/// `min_pool_size` asks for a connection): once the server is reachable, a repeated RELOAD of the same
+/// file must put the new definition into effect.
+pub fn retry_scenario(via: &str) -> Scenario {
+    let (old_toml, _) = variant("base");
+    let mut pools = vec![pool("db", "pg-alt", "alice", "alicepw", 2, "transaction"), pool("db2", "pg-b", "alice", "alicepw", 2, "transaction")];
+    pools[0].users[0].extra = "min_pool_size = 1\n".into();
+    let mut cfg = Cfg { pools, ..Default::default() };
+    cfg.connect_timeout = 1000;
+    let new_toml = cfg.toml();
+    let mut servers: Vec<ServerSpec> = Vec::new();
+    for h in ["pg-a", "pg-b", "pg-alt"] {
+        let mut sp = ServerSpec::new(&format!("{}:5432", h), h);
+        if h == "pg-alt" {
+            sp.accept = crate::mockpg::Accept::Refuse;
+        }
+        servers.push(sp);
+    }
+    let reload = |v: &str| -> Vec<Step> {
+        match v {
+            "admin" => vec![Step::Admin("RELOAD".into())],
+            _ => vec![Step::ReloadSighup(0), Step::Wait(Cond::TimeMs(0))],
+        }
+    };
+    let mut steps = vec![Step::WriteConfig(0)];
+    steps.extend(reload(via));
+    steps.push(Step::Call(
+        "pg-alt comes up".into(),
+        std::sync::Arc::new(|n| {
+            n.servers.get_mut("pg-alt:5432").unwrap().accept = crate::mockpg::Accept::Up;
+        }),
+    ));
+    steps.extend(reload(via));
+    steps.push(Step::Probe);
+    let late = Script::new("late").wait(Cond::ActorsDone(vec![0])).connect("alice", "db", Some("alicepw")).q(&format!("SELECT 3 /*{}*/", tag(1, 0, 0))).terminate();
+    Scenario {
+        name: format!("C14 retry old=base new=server-changed+min_pool_size via={}", via),
+        toml: old_toml,
+        alt_tomls: vec![new_toml],
+        servers,
+        actors: vec![env("reload", steps), late.actor()],
+        opts: Opts { horizon_ms: 60_000, ..Opts::default() },
+        meta: serde_json::json!({"retry": true, "via": via}),
+    }
+}
+
+fn retry_oracle(sc: &Scenario, out: &Outcome) -> Vec<Violation> {
+    let log = &out.log;
+    let mut vs = Vec::new();
+    let via = sc.meta["via"].as_str().unwrap();
+    if out.blocked {
+        vs.push(v("C14.blocked", format!("C14.blocked:retry:via={}", via), blocked_note(log).unwrap_or_default()));
+        return vs;
+    }
+    // where did the late client's statement run?
+    let ran_on: Vec<String> = log
+        .iter()
+        .filter_map(|e| match &e.rec {
+            Rec::BRecv { conn, msg, .. } if msg_tag(msg).map(|t| t.c == 1).unwrap_or(false) => Some(conn_server(log, *conn)),
+            _ => None,
+        })
+        .collect();
+    let errs: Vec<String> = client_msgs(log, 1).iter().filter(|(_, m)| m.code == b'E').map(|(_, m)| m.err_field(b'M').unwrap_or_default()).collect();
+    if ran_on.iter().any(|s| !s.starts_with("pg-alt")) || ran_on.is_empty() {
+        vs.push(v(
+            "C14.new-definition-not-in-effect",
+            format!("C14.new-definition-not-in-effect:retry-after-failed-apply:via={}", via),
+            format!(
+                "the file naming pg-alt was reloaded twice (the second time with pg-alt reachable), yet a transaction started afterwards ran on {:?} (errors {:?}): the first, failed application already replaced the stored configuration, so the retry saw no change",
+                ran_on, errs
+            ),
+        ));
+    }
+    vs
+}
+
 pub fn oracle(sc: &Scenario, out: &Outcome) -> Vec<Violation> {
+    if sc.meta.get("retry").is_some() {
+        return retry_oracle(sc, out);
+    }
     let log = &out.log;
     let mut vs = Vec::new();
     let old = sc.meta["old"].as_str().unwrap();
@@ -272,6 +351,8 @@ pub fn build(tier: &str) -> SimCheck {
             scenarios.push(scenario(o, n, via));
         }
     }
+    scenarios.push(retry_scenario("admin"));
+    scenarios.push(retry_scenario("sighup"));
     SimCheck {
         scenarios,
         oracle: Box::new(oracle),
